@@ -5,7 +5,8 @@ Run by `vq.lemmas.run` with `crosshair check --report_all`.
 """
 from typing import Tuple, List
 import sys
-sys.path.insert(0, '/repo')
+import os
+sys.path.insert(0, os.environ.get('QUBOVERT_REPO', '/repo'))
 from qubovert.utils import PUBOMatrix, PUSOMatrix, QUBOMatrix, QUSOMatrix, num_bits, boolean_to_spin, spin_to_boolean, is_solution_spin
 from qubovert.utils import decimal_to_boolean, boolean_to_decimal
 import qubovert as qv
